@@ -98,7 +98,12 @@ func (g *gen) inLoop(isSwitch bool, f func()) (*loopCtx, string) {
 	l := &loopCtx{label: g.label(), isSwitch: isSwitch}
 	g.fn.loops = append(g.fn.loops, l)
 	g.indent++
-	body := g.capture(func() { g.scoped(f) })
+	body := g.capture(func() {
+		if !isSwitch {
+			g.line("//gogen:loop")
+		}
+		g.scoped(f)
+	})
 	g.indent--
 	g.fn.loops = g.fn.loops[:len(g.fn.loops)-1]
 	return l, body
@@ -122,6 +127,9 @@ func (g *gen) loopStmt(d int) {
 	w := []int{6, 4, 3, 4, 5, 3, 3, 3}
 	if g.fn.pure {
 		w = []int{6, 0, 0, 4, 0, 0, 3, 0}
+	}
+	if !g.on("range-int") {
+		w[3] = 0
 	}
 	switch g.weighted(w, "loopkind") {
 	case 0:
